@@ -43,12 +43,12 @@ add("C18", "exploration",
 
 
 add("C06", "exploration",
-    "Three generated families: valid geometry models -> MarshalJSON checked by encoding/json and an RFC 7946 structure validator, and UnmarshalGeoJSON / json.Unmarshal into Geometry and all 7 concrete types (destinations pre-populated with another value) (a null document matches none); the bytes MarshalJSON returned are re-read after further direct MarshalJSON calls; results compared with the harness-computed image (M dropped, empty Points omitted from MultiPoints, Z kept iff a position exists); grammar-generated GeoJSON documents (positions of length 0..5, wrong nesting, non-numeric elements, null/missing members, unknown types) with the expected outcome computed from the document; Features/FeatureCollections with generated ids, properties and foreign members (names incl. ones that need JSON escaping) compared as decoded JSON, decode destinations pre-populated with another feature / longer collection, malformed features rejected. Encoder results are overwritten by the caller before MarshalJSON is called again.",
+    "Three generated families: valid geometry models -> MarshalJSON checked by encoding/json and an RFC 7946 structure validator, and UnmarshalGeoJSON / json.Unmarshal into Geometry and all 7 concrete types (destinations pre-populated with another value) (a null document matches none); the bytes MarshalJSON returned are re-read after further direct MarshalJSON calls; results compared with the harness-computed image (M dropped, empty Points omitted from MultiPoints, Z kept iff a position exists); grammar-generated GeoJSON documents (positions of length 0..5, wrong nesting, non-numeric elements, null/missing members, unknown types) with the expected outcome computed from the document; Features/FeatureCollections with generated ids, properties and foreign members (names incl. ones that need JSON escaping) compared as decoded JSON, decode destinations pre-populated with another feature / longer collection, malformed features rejected. Encoder results are overwritten by the caller before MarshalJSON is called again. Enumerated: geometries of 127..257 and 1000 points / members / rings, FeatureCollections of 128..258 features.",
     "Trusted: encoding/json, the RFC 7946 validator and document oracle in props/c06_test.go. Documents RFC 7946 leaves open (null coordinates, GeometryCollection without geometries, nulls nested in coordinates) are only required to be handled without panic / to decode to the empty geometry.",
     "property-based testing (rapid): round-trip against a format-loss model + grammar-based document generation",
     "DESIGN.md C06")
 add("C07", "exploration",
-    "Generated valid geometries with ordinates k/10^q x XY precision -8..7 x Z/M precisions x every subset of {size, bbox, id list, closed rings} in a drawn option order x optional concatenation. An independent varint-level TWKB reader returns the integers and headers; exact rational rounding (math/big) gives the acceptable integers, the nearest float64 of K/10^p the expected decoded value; size header = bytes that follow, bbox header = min/max of the encoded integers and = envelope/Z/M ranges of the decoded geometry, id list verbatim, header-only readers agree, out-of-range precisions and id-count mismatches rejected, concatenated streams split by the size header. Encoder results are re-read after later encodings and overwritten before MarshalTWKB is called again.",
+    "Generated valid geometries with ordinates k/10^q x XY precision -8..7 x Z/M precisions x every subset of {size, bbox, id list, closed rings} in a drawn option order x optional concatenation. An independent varint-level TWKB reader returns the integers and headers; exact rational rounding (math/big) gives the acceptable integers, the nearest float64 of K/10^p the expected decoded value; size header = bytes that follow, bbox header = min/max of the encoded integers and = envelope/Z/M ranges of the decoded geometry, id list verbatim, header-only readers agree, out-of-range precisions and id-count mismatches rejected, concatenated streams split by the size header. Encoder results are re-read after later encodings and overwritten before MarshalTWKB is called again. Enumerated: counts of 127..129, 300 and 16383..16385 (points, members, rings, id-list entries: two- and three-byte varints).",
     "Trusted: independent TWKB reader (internal/codec/twkb.go), math/big. Domain restricted to |ordinate x 10^p| < 2^52 (beyond it float64 cannot resolve the grid and the int64 varint overflows); ring structure is not compared when rounding merges a ring's last encoded vertex with its first (counted).",
     "property-based testing (rapid): exact-arithmetic rounding oracle + independent decoder",
     "DESIGN.md C07")
